@@ -533,8 +533,23 @@ func (w *world) atQuiescence() {
 							continue
 						}
 						o := w.getSvc(ok)
-						if o != nil && len(w.crashStatuses[ok]) == 1 && containsAddr(stat[ok].IPs, was[0]) && completesDualStack(o, w.crashStatuses[ok], stat[ok].IPs) {
+						if o == nil || len(w.crashStatuses[ok]) == 0 {
+							continue
+						}
+						took := false
+						for _, a := range was {
+							if containsAddr(stat[ok].IPs, a) && !containsAddr(w.crashStatuses[ok], a) {
+								took = true
+							}
+						}
+						switch {
+						case !took:
+						case len(w.crashStatuses[ok]) == 1 && completesDualStack(o, w.crashStatuses[ok], stat[ok].IPs):
 							sig = "C06/restart-steal-by-preferdualstack-completion"
+						case !addrsEq(w.crashStatuses[ok], stat[ok].IPs):
+							// the other service had a record of its own which it did not keep, and now
+							// holds the lost address: the listed single-pass first sync
+							sig = "C06/restart-steal-by-service-whose-own-record-is-replaced"
 						}
 					}
 					w.violate("C06", "recorded-address-lost-across-restart", sig, fmt.Sprintf("%s had %v recorded (still admissible) when the controller stopped, after restart it has %v", key, was, stat[key].IPs))
@@ -646,8 +661,20 @@ func (w *world) resyncCheck() {
 	if !inc.started || inc.cfgInForce == nil {
 		return
 	}
+	// "converged" is the premise of this clause: a pending Service that is admissible (a starvation,
+	// C07's to report - e.g. a listed finding) would legitimately be served by the forced re-sync
+	stat := specalloc.StatusHoldings(w.apiServices())
+	for _, s := range w.apiServices() {
+		key := s.Namespace + "/" + s.Name
+		if s.Spec.Type == v1.ServiceTypeLoadBalancer && w.managed(s) && len(stat[key].IPs) == 0 && specalloc.FamiliesOf(s).Valid &&
+			inc.cfgInForce.Admissible(key, s, stat, specalloc.MayShare) != "" {
+			w.stat("probe.resync-check-skipped-pending-admissible-service")
+			return
+		}
+	}
 	for pass := 1; pass <= 2; pass++ {
 		w.writesBySvc = map[string]int{}
+		w.appliedBySvc = map[string]int{}
 		before := w.writes
 		inc.workers[0].q.Add(reloadKey)
 		if !w.settle(3000) {
@@ -656,9 +683,9 @@ func (w *world) resyncCheck() {
 		}
 		w.stat("probe.forced-resync")
 		if pass == 1 {
-			for k, n := range w.writesBySvc {
-				if n > 1 {
-					w.violate("C03", "normalising-write-repeated", "", fmt.Sprintf("re-sync of a converged system wrote the status of %s %d times", k, n))
+			for _, k := range sortedKeys(w.appliedBySvc) {
+				if n := w.appliedBySvc[k]; n > 1 {
+					w.violate("C03", "normalising-write-repeated", "", fmt.Sprintf("re-sync of a converged system wrote the status of %s %d times (attempts %d)", k, n, w.writesBySvc[k]))
 				}
 			}
 		} else if w.writes != before {
